@@ -177,6 +177,7 @@ Begin(o, a) ==
     [] a.kind = "sign" /\ a.sel = "all" -> [b EXCEPT !.pc = "sa_q"]
     [] a.kind = "fetch" /\ a.sel = "all" -> [b EXCEPT !.pc = "f_get", !.k = 1]
     [] a.kind = "fetch" -> IF a.v \in Vals THEN [b EXCEPT !.pc = "f_get", !.k = a.v] ELSE Fin(b, FALSE)
+    [] a.kind = "bcast" /\ ((a.sel = "all" /\ a.src = "file") \/ (a.sel # "all" /\ a.src = "dir")) -> Fin(b, FALSE)   \* refused by the command line
     [] a.kind = "bcast" /\ a.sel = "all" /\ a.src = "dir" ->
          IF \A v \in Vals : disk[o][v] = NoExit THEN FinAny(b) ELSE [b EXCEPT !.pc = "b_q", !.got = disk[o]]
     [] a.kind = "bcast" /\ a.sel = "all" -> [b EXCEPT !.pc = "b_get", !.k = 1]
@@ -193,7 +194,9 @@ Start(c, o, a) == /\ cmd[c].pc = "idle" /\ o \in Ops /\ ~Busy(o)
                   /\ cmd' = [cmd EXCEPT ![c] = Begin(o, a)]
                   /\ UNCHANGED <<store, present, status, pool, disk, produced, last>>
 
-Finish(c) == /\ cmd[c].pc = "fin" /\ cmd' = [cmd EXCEPT ![c].pc = "done"]
+\* the command has returned: only who ran what with which result is kept
+Finish(c) == /\ cmd[c].pc = "fin"
+             /\ cmd' = [cmd EXCEPT ![c] = [IdleCmd EXCEPT !.pc = "done", !.op = cmd[c].op, !.kind = cmd[c].kind, !.sel = cmd[c].sel, !.ok = cmd[c].ok, !.any = cmd[c].any]]
              /\ UNCHANGED <<store, present, status, pool, disk, produced, last>>
 
 (* ---- requests to the beacon node ---- *)
@@ -243,7 +246,7 @@ NextVal(r, after) == IF r.sel = "all" /\ r.k < NV THEN [r EXCEPT !.k = r.k + 1] 
 AfterApi(r, seen, R) ==
   CASE r.pc \in {"s_post", "sa_post"} -> Fin(r, PostOK(seen))
     [] r.pc = "f_get" ->
-         IF seen \in 200..299 THEN (IF AggOK(r.k, R) THEN NextVal([r EXCEPT !.wrote = @ \cup {r.k}], Fin([r EXCEPT !.wrote = @ \cup {r.k}], TRUE))
+         IF seen \in 200..299 THEN (IF AggOK(r.k, R) THEN LET x == [r EXCEPT !.wrote = @ \cup {<<r.k, AggExit(r.k, R)>>}] IN NextVal(x, Fin(x, TRUE))
                                     ELSE Fin(r, FALSE))
          ELSE IF seen = 404 /\ r.sel = "all" THEN NextVal(r, Fin(r, TRUE))
          ELSE Fin(r, FALSE)
@@ -321,7 +324,7 @@ ExitUnforgeable == /\ \A p \in pool : Backed(p.x)
                    /\ \A o \in Ops : \A v \in Vals : Backed(disk[o][v])
                    /\ \A c \in Cmds : \A v \in Vals : Backed(cmd[c].got[v])
 \* `exit fetch` only ever writes an exit that verifies under the key of the validator it is filed under
-FetchWritesGood == \A c \in Cmds : cmd[c].kind = "fetch" => \A v \in cmd[c].wrote : disk[cmd[c].op][v].by = v \/ disk[cmd[c].op][v] = NoExit
+FetchWritesGood == \A c \in Cmds : \A w \in cmd[c].wrote : w[2].by = w[1]
 \* "only such an exit is ever broadcast": everything submitted to the beacon node verifies under the validator's key
 PoolSound == \A p \in pool : p.x.by = p.v
 \* `exit broadcast` verifies ALL exits it is going to submit BEFORE it submits the first
